@@ -85,36 +85,46 @@ def View.active (v : View) : List Nat :=
 def View.find (v : View) (seq : Nat) : Option (Nat × List Nat × Option (List Nat)) :=
   v.issued.find? (fun e => e.1 == seq)
 
-/-- one wire event of E; `Except.error` = E violated the RFC rule named -/
-def step (v : View) : Ev → Except Reject View
-  | .tp l => .ok { v with limit := l }
+/-- how an event changes what the peer knows (no checking) -/
+def observe (v : View) : Ev → View
+  | .tp l => { v with limit := l }
   | .hs seq cid tok =>
-    .ok { v with issued := v.issued ++ [(seq, cid, tok)], nextSeq := max v.nextSeq (seq + 1) }
+    { v with issued := v.issued ++ [(seq, cid, tok)], nextSeq := max v.nextSeq (seq + 1) }
   | .txNcid f =>
-    if f.seq < f.rpt then .error .retirePriorTo else
+    match v.find f.seq with
+    | some _ => { v with maxRpt := max v.maxRpt f.rpt }
+    | none => { v with issued := v.issued ++ [(f.seq, f.cid, some f.token)], nextSeq := max v.nextSeq (f.seq + 1),
+                       maxRpt := max v.maxRpt f.rpt }
+  | .rxRetire seq => { v with retired := seq :: v.retired }
+  | .hsPeer seq cid => { v with peerIssued := v.peerIssued ++ [(seq, cid)] }
+  | .rxNcid f => { v with peerIssued := v.peerIssued ++ [(f.seq, f.cid)] }
+  | .txRetire _ _ => v
+
+/-- the RFC rule an event of E violates in view `v`, if any -/
+def check (v : View) : Ev → Option Reject
+  | .txNcid f =>
+    if f.seq < f.rpt then some .retirePriorTo else
     match v.find f.seq with
     | some (_, cid, tok) =>
       -- the same sequence number again: must be the same connection ID and token (retransmission)
-      if cid ≠ f.cid ∨ (tok ≠ none ∧ tok ≠ some f.token) then .error .retransmitDiffers
-      else
-        let v' := { v with maxRpt := max v.maxRpt f.rpt }
-        if v'.active.length ≤ v'.limit then .ok v' else .error .limitExceeded
+      if cid ≠ f.cid ∨ (tok ≠ none ∧ tok ≠ some f.token) then some .retransmitDiffers
+      else if (observe v (.txNcid f)).active.length ≤ v.limit then none else some .limitExceeded
     | none =>
-      if f.seq ≠ v.nextSeq then .error .seqGap
-      else if v.cids.contains f.cid then .error .dupCid
-      else if v.tokens.contains f.token then .error .dupToken
-      else
-        let v' := { v with issued := v.issued ++ [(f.seq, f.cid, some f.token)], nextSeq := f.seq + 1,
-                           maxRpt := max v.maxRpt f.rpt }
-        if v'.active.length ≤ v'.limit then .ok v' else .error .limitExceeded
-  | .rxRetire seq => .ok { v with retired := seq :: v.retired }
-  | .hsPeer seq cid => .ok { v with peerIssued := v.peerIssued ++ [(seq, cid)] }
-  | .rxNcid f => .ok { v with peerIssued := v.peerIssued ++ [(f.seq, f.cid)] }
+      if f.seq ≠ v.nextSeq then some .seqGap
+      else if v.cids.contains f.cid then some .dupCid
+      else if v.tokens.contains f.token then some .dupToken
+      else if (observe v (.txNcid f)).active.length ≤ v.limit then none else some .limitExceeded
   | .txRetire seq dcid =>
     match v.peerIssued.find? (fun e => e.1 == seq) with
-    | none => .error .retireUnissued
-    | some (_, cid) =>
-      if dcid = some cid then .error .retireInOwnPacket else .ok v
+    | none => some .retireUnissued
+    | some (_, cid) => if dcid = some cid then some .retireInOwnPacket else none
+  | _ => none
+
+/-- one wire event of E; `Except.error` = E violated the RFC rule named -/
+def step (v : View) (e : Ev) : Except Reject View :=
+  match check v e with
+  | some r => .error r
+  | none => .ok (observe v e)
 
 /-- run a whole trace; the first rule violated, if any -/
 def run (v : View) : List Ev → Except Reject View
